@@ -41,7 +41,7 @@ struct Cfg {
   int S;        // concurrent shutdown threads (mode 0) / provider shutdown callers
   int procs;    // mode 1: 0 = {batch}, 1 = {simple, batch}, 2 = {batch, batch}
   int F;        // provider ForceFlush threads
-  int fft;      // 0: max timeout, 1: 100 ms (shorter than the slow exporter)
+  int fft;      // 0: max timeout, 1: 100 ms (shorter than the slow exporter), 2: zero (no limit for a batch processor; the deadline of a multi processor has passed at once)
   int latency;  // 1: Export of the batch child's exporter is slow
   int destroy;  // provider destroyed without explicit Shutdown
   int slow_first;  // procs == 2: the slow exporter belongs to the FIRST child (an earlier child uses up the flush budget)
@@ -182,7 +182,7 @@ void drive_provider(vf::Ctx &c, const Cfg &cfg, std::vector<std::unique_ptr<Proc
     for (int f = 0; f < cfg.F; ++f)
       ts.emplace_back([&, f] {
         g->log(CALL_FF, f);
-        bool ok = provider.ForceFlush(cfg.fft == 0 ? (microseconds::max)() : microseconds(100 * 1000));
+        bool ok = provider.ForceFlush(cfg.fft == 0 ? (microseconds::max)() : cfg.fft == 2 ? microseconds(0) : microseconds(100 * 1000));
         g->log(RET_FF, f, ok);
       });
     for (int s = 0; s < cfg.S; ++s)
@@ -336,6 +336,7 @@ void setup(vf::Options &o) {
       { Cfg c = z; c.mode = 1; c.T = 1; c.n = 1; c.procs = 2; c.xfail = 1; g_cfgs.push_back(c); }
       { Cfg c = z; c.mode = 1; c.T = 1; c.n = 1; c.procs = 1; c.xfail = 1; g_cfgs.push_back(c); }
       { Cfg c = z; c.mode = 1; c.T = 1; c.n = 1; c.procs = 2; c.xfail = 1; c.F = 1; g_cfgs.push_back(c); }
+      { Cfg c = z; c.mode = 1; c.T = 1; c.n = 1; c.procs = 2; c.F = 1; c.fft = 2; g_cfgs.push_back(c); }   // a zero budget: every child is flushed all the same
       if (th) {
         { Cfg c = z; c.mode = 1; c.T = 1; c.n = 1; c.procs = 2; c.xfail = 2; c.F = 1; g_cfgs.push_back(c); }
         { Cfg c = z; c.mode = 1; c.T = 1; c.n = 1; c.procs = 2; c.xfail = 3; c.S = 1; g_cfgs.push_back(c); }
